@@ -1,7 +1,7 @@
 (* C10/Spec.v — the property statements' vocabulary, and their proofs from the
    invariants (Inv, Closers, Transmit, InLock, Progress). *)
 From XV Require Import lib.Bytes lib.Lts gen.SessClose C10.Model C10.Inv C10.Proofs C10.Closers
-  C10.Transmit C10.InLock C10.Progress C10.Refute C10.Tables.
+  C10.Transmit C10.InLock C10.StateLock C10.Progress C10.Refute C10.Tables.
 
 Definition reachable_from (ds : bool) (ks : list kind) (s : state) : Prop :=
   exists tr, run step (init ds ks) tr = Some s.
@@ -23,7 +23,7 @@ Lemma roles_run : forall ds ks tr s, run step (init ds ks) tr = Some s -> roles_
 Proof.
   intros ds ks. apply (invariant_run state nat step (roles_ok ks)).
   - intro i. cbn. destruct (nth_error ks i); reflexivity.
-  - intros s l s' H Hs i. apply step_inv in Hs. destruct Hs as (o & k & og & ig & a' & _ & Hex & ->).
+  - intros s l s' H Hs i. apply step_inv in Hs. destruct Hs as (o & k & og & ig & a' & _ & _ & Hex & ->).
     cbn [s_a]. destruct (Nat.eq_dec i l) as [->|Hn].
     + rewrite upd_same, (exec_role _ _ _ _ _ _ _ _ _ Hex). apply H.
     + rewrite upd_other by exact Hn. apply H.
@@ -34,7 +34,7 @@ Qed.
 Lemma one_closing_tag : forall ds ks tr s,
   run step (init ds ks) tr = Some s ->
   closes (o_wire (s_o s)) <= 1 /\
-  (o_cl (s_o s) = true <-> closes (o_wire (s_o s)) = 1) /\
+  (closes (o_wire (s_o s)) = 1 <-> o_cl (s_o s) = true /\ o_pend (s_o s) = false) /\
   (forall i e, (kind_at ks i KClose \/ kind_at ks i KServe) -> returned s i e ->
      closes (o_wire (s_o s)) = 1).
 Proof.
@@ -55,7 +55,7 @@ Lemma nothing_after_close : forall ds ks tr s,
   run step (init ds ks) tr = Some s ->
   (forall pre post, o_wire (s_o s) = pre ++ IClose :: post -> post = []) /\
   (o_cl (s_o s) = true -> forall tr2 s2, run step s tr2 = Some s2 ->
-     o_wire (s_o s2) = o_wire (s_o s) /\ o_buf (s_o s2) = o_buf (s_o s)).
+     o_buf (s_o s2) = o_buf (s_o s) /\ tag_only (s_o s) (s_o s2)).
 Proof.
   intros ds ks tr s Hr. pose proof (INV_run ds ks tr s Hr) as HI.
   split.
@@ -67,7 +67,7 @@ Lemma transmit_fails_after_close : forall ds ks tr1 s1 i k tr2 s2 e,
   run step (init ds ks) tr1 = Some s1 ->
   o_cl (s_o s1) = true -> is_transmit k = true -> not_started s1 i k ->
   run step s1 tr2 = Some s2 -> returned s2 i e ->
-  e = EOutClosed /\ o_wire (s_o s2) = o_wire (s_o s1) /\ o_buf (s_o s2) = o_buf (s_o s1).
+  e = EOutClosed /\ o_buf (s_o s2) = o_buf (s_o s1) /\ tag_only (s_o s1) (s_o s2).
 Proof.
   intros ds ks tr1 s1 i k tr2 s2 e H1 Hcl Ht Hns H2 Hres. unfold not_started in Hns.
   apply (transmit_after_close ds ks tr1 s1 i k tr2 s2 e H1 Hcl Ht); try assumption; rewrite Hns; reflexivity.
@@ -84,8 +84,8 @@ Proof.
   intros ds ks tr s i e Hr Hk Hres.
   pose proof (roles_run ds ks tr s Hr i) as Hrole. unfold kind_at in Hk. rewrite Hk in Hrole. cbn in Hrole.
   destruct (serve_returned s i e (CINV_run ds ks tr s Hr) Hrole Hres) as (Ho & Hi & Hc & Hrel).
-  split; [exact Ho|]. split; [exact Hi|].
-  split; [exact (proj1 (proj1 (proj2 (one_closing_tag ds ks tr s Hr))) Ho)|].
+  split; [exact (proj1 Ho)|]. split; [exact Hi|].
+  split; [exact (proj2 (proj1 (proj2 (one_closing_tag ds ks tr s Hr))) Ho)|].
   split; [exact Hrel|].
   destruct (a_cause (s_a s i)); cbn in Hrel; try contradiction; split; intro H; try congruence;
     try (destruct Hrel; congruence); try discriminate.
@@ -95,19 +95,20 @@ Lemma read_after_input_closed : forall s i k s',
   i_cl (s_i s) = true -> a_code (s_a s i) = OProbe :: k -> step s i = Some s' ->
   a_e (s_a s' i) = EInClosed.
 Proof.
-  intros s i k s' Hcl Hc Hs. unfold step in Hs. rewrite Hc in Hs. cbn [exec] in Hs.
+  intros s i k s' Hcl Hc Hs. unfold step in Hs. rewrite Hc in Hs.
+  destruct (gate i OProbe (s_o s)); [|discriminate]. cbn [exec] in Hs.
   destruct (i_lk (s_i s)); [discriminate|]. injection Hs as <-. cbn. rewrite upd_same. cbn. rewrite Hcl. reflexivity.
 Qed.
 
 Lemma serve_returns : forall ds ks tr s i,
   run step (init ds ks) tr = Some s ->
   kind_at ks i KServe -> (forall j, j <> i -> ~ kind_at ks j KServe) ->
-  loopish (a_code (s_a s i)) = false ->
+  loopish (a_code (s_a s i)) = false -> o_rdy (s_o s) = true ->
   exists tr' s' e, run step s tr' = Some s' /\ returned s' i e.
 Proof.
-  intros ds ks tr s i Hr Hk Honly Hl.
+  intros ds ks tr s i Hr Hk Honly Hl Hrdy.
   pose proof (roles_run ds ks tr s Hr) as Hroles.
-  apply (serve_can_return ds ks tr s i Hr); [| |exact Hl].
+  apply (serve_can_return ds ks tr s i Hr); [| |exact Hl|exact Hrdy].
   - rewrite Hroles. unfold kind_at in Hk. rewrite Hk. reflexivity.
   - intros j Hn. rewrite Hroles. pose proof (Honly j Hn) as Hj. unfold kind_at in Hj.
     destruct (nth_error ks j) as [k|]; [|discriminate].
@@ -126,10 +127,11 @@ Lemma source_tables :
   sc_serve_defer_calls = map str ["closeInputStream"; "Close"]%string /\
   sc_setclosedeadline_locked = true /\
   (sc_send_records_opening_element = true /\ sc_negotiator_records_ws = true /\
-   sc_reader_ws_close_is_eof = true).
+   sc_reader_ws_close_is_eof = true) /\
+  sc_statelock_blocking_calls = [].
 Proof.
   split; [exact tbl_out_lockers|]. split.
   - destruct tbl_guards as (_ & A & B & C & D & E). destruct tbl_reader_and_deadline as [F _]. tauto.
   - split; [exact tbl_setters|]. split; [exact tbl_serve_defer|]. split; [exact (proj2 tbl_reader_and_deadline)|].
-    destruct tbl_close_tags as (_ & _ & A). destruct tbl_ws_framing as [B C]. tauto.
+    destruct tbl_close_tags as (_ & _ & A). destruct tbl_ws_framing as [B C]. split; [tauto|exact tbl_statelock].
 Qed.
